@@ -516,8 +516,12 @@ def runTrace (special : Mode → Nat → String → List Arg → List CI → M (
                 else if t == strBytes "exc" then
                   match res with
                   | .error e =>
-                    let e' := if e == unknownCommandPrefix && (bytesStr v).startsWith unknownCommandPrefix then bytesStr v else e
-                    if strBytes e' != v then fault "script call raised a different error"
+                    -- the echoed name of an unknown command is compared by prefix only (it went through a lossy decode)
+                    let e' := e
+                    let sameErr : Bool :=
+                      if e == unknownCommandPrefix then v.take (strBytes unknownCommandPrefix).length == strBytes unknownCommandPrefix
+                      else strBytes e' == v
+                    if !sameErr then fault "script call raised a different error"
                     if tag == strBytes "pcall" then runTrace special mode c sha fuel
                     else return .error (if version == 6 then scriptErrorMsg sha e' else e')
                   | .ok _ => fault "script call should have returned"; return .error "model: script trace"
